@@ -88,6 +88,38 @@ func retryScenario(maxCalls int) func() {
 	}
 }
 
+// retryTwice: the function returned by ExponentialRetry is invoked twice; the back-off of the
+// second invocation starts again at 2^1.
+func retryTwice() {
+	calls := 0
+	script := [][]int{{vrt.Choose(3, 0), 0}, {1 + vrt.Choose(2, 0), 0}} // number of plain errors before success, per invocation
+	inv := 0
+	fn := ExponentialRetry(nil, time.Millisecond, func() (interface{}, error) {
+		calls++
+		vrt.Log("op-call", calls, int(vrt.Elapsed()))
+		if script[inv][1] < script[inv][0] {
+			script[inv][1]++
+			vrt.Log("op-ret", calls, "error")
+			return nil, errPlain
+		}
+		vrt.Log("op-ret", calls, "success")
+		return fmt.Sprintf("r%d", calls), nil
+	})
+	for inv = 0; inv < 2; inv++ {
+		calls = 0
+		vrt.Log("invoke", inv)
+		r, err := fn()
+		rs, _ := outcomeStr(r, nil)
+		es := "<nil>"
+		if err != nil {
+			es = err.Error()
+		}
+		vrt.Log("rate", int(time.Millisecond))
+		vrt.Log("mode", 0)
+		vrt.Log("ret", rs, es, int(vrt.Elapsed()))
+	}
+}
+
 // retryLong: 40 plain errors, then success: the back-off range is capped at 2^31.
 func retryLong() {
 	calls := 0
@@ -210,6 +242,8 @@ func init() {
 		Opts: vrt.Options{RandAll: true}, Run: retryScenario(4), Check: retryCheck})
 	vrt.Register(&vrt.Scenario{Name: "R-retry-long", Props: []string{"C18"}, Quick: 0, Thorough: 1,
 		Desc: "40 plain errors then success: requested random range capped at 2^31", Run: retryLong, Check: retryCheck})
+	vrt.Register(&vrt.Scenario{Name: "R-retry-twice", Props: []string{"C18"}, Quick: 1, Thorough: 2,
+		Desc: "the returned function invoked twice (0-2 plain errors, then success, each time): every invocation's back-off starts at 2^1", Opts: vrt.Options{RandAll: true}, Run: retryTwice, Check: retryTwiceCheck})
 	vrt.Register(&vrt.Scenario{Name: "R-calc", Props: []string{"C18"}, Quick: 1, Thorough: 1,
 		Desc: "calcExponentialRetry for every c in 0..40 x 4 rates x boundary random answers", Opts: vrt.Options{RandAll: true}, Run: retryCalc, Check: retryCalcCheck})
 	vrt.Register(&vrt.Scenario{Name: "A-attempt", Props: []string{"C20", "C11:race", "C12:goroutine-leak"}, Quick: 3, Thorough: 4,
